@@ -23,6 +23,7 @@ class RefResult:
         self.ran: list[str] = []
         self.error: BaseException | None = None
         self.failed_node: str | None = None
+        self.failed: list[str] = []
 
 
 def _cur(spec: dict, p: str) -> str:
@@ -88,7 +89,7 @@ def inner_has_fallback(program: list[dict], gi: int, name: str) -> bool:
     return False
 
 
-def eval_graph(program: list[dict], gi: int, provided: dict[str, Any], env: Env, res: RefResult | None = None, prefix: str = "") -> RefResult:
+def eval_graph(program: list[dict], gi: int, provided: dict[str, Any], env: Env, res: RefResult | None = None, prefix: str = "", failing_dead: bool = False) -> RefResult:
     """Evaluate graph `gi` of an acyclic gate-free program in dependency order."""
     res = res or RefResult()
     g = program[gi]
@@ -144,8 +145,12 @@ def eval_graph(program: list[dict], gi: int, provided: dict[str, Any], env: Env,
                 dead.add(name)
                 continue
             try:
-                outs = _run_node(program, gi, n, kwargs, env, res)
+                outs = _run_node(program, gi, n, kwargs, env, res, failing_dead)
             except Exception as e:  # noqa: BLE001 - a node function raised
+                if failing_dead:
+                    dead.add(name)
+                    local.failed.append(name)
+                    continue
                 local.error = e
                 local.failed_node = name
                 break
@@ -160,11 +165,13 @@ def eval_graph(program: list[dict], gi: int, provided: dict[str, Any], env: Env,
     return local
 
 
-def _run_node(program: list[dict], gi: int, n: dict, kwargs: dict, env: Env, res: RefResult) -> dict[str, Any]:
+def _run_node(program: list[dict], gi: int, n: dict, kwargs: dict, env: Env, res: RefResult, failing_dead: bool = False) -> dict[str, Any]:
     if n["kind"] == "graph":
-        inner = eval_graph(program, n["inner"], kwargs, env, res)
+        inner = eval_graph(program, n["inner"], kwargs, env, res, failing_dead=failing_dead)
         if inner.error is not None:
             raise inner.error
+        if inner.failed:
+            raise RuntimeError("inner failure")
         ren = dict(n.get("outRen", []))
         exposed = graph_outputs(program, n["inner"])
         return {ren.get(k, k): v for k, v in inner.values.items() if k in exposed}
